@@ -26,6 +26,17 @@
 // for hangs it depends on the schedule and is given in the detail text and
 // in the evidence classes instead.
 //
+// Second audit (r2) additions: nng_init in a second shape (several threads
+// per array), the k-th thread creation failed in the programs that create
+// threads while armed (mode M_THR, a pthread_create defined here), the set
+// of open descriptors compared before nng_init / after nng_fini (fd-leak@..,
+// fd-closed-foreign), NNG_ENOMEM from any call of pass 2 (enomem-again:
+// pass2:..), a "wedged" verdict re-run with doubled bounds before it is
+// believed, programs whose failure fires past the first round (opts-live-*,
+// burst-*, tran-ws-frames, http-server-*keepalive; stat
+// fired_after_first_round, classes late|<program>), bodies / Location of
+// the HTTP answers.
+//
 // Manual reproduction of one finding (prints VIOL lines):
 //   C20_PROG=<program> C20_SITE=<substring of the site chain> [C20_J=<j>] \
 //       .build/asan/h/c20_oom -v
@@ -35,6 +46,7 @@
 
 #include <nng/http.h>
 
+#include <dirent.h>
 #include <dlfcn.h>
 #include <elf.h>
 #include <errno.h>
@@ -248,6 +260,20 @@ typedef struct {
 	int      follow_rv;
 	char     follow_step[64];
 	int      env_skip;         // the machine ran out of ephemeral ports: do not judge
+	volatile int stage;        // set by the program: 1 = past its first round / on the timer path
+	int      fired_stage;      // value of 'stage' when the failure fired
+	int      fired_thr;        // what failed was a thread creation, not an allocation
+	long     thr_total;        // thread creations while armed
+	int      fd_checked;       // descriptor balance was taken
+	int      fd_leaked;        // descriptors open after nng_fini that were not open before nng_init
+	int      fd_lost;          // descriptors of the harness that were closed under it
+	char     fd_what[64];      // what the first leaked descriptor refers to
+	int      p2_enomem;        // API calls of the second pass that returned NNG_ENOMEM (nothing armed)
+	char     p2_enomem_call[64];
+	int      p2_soft_failures; // attempts of the second pass that had to be repeated
+	_Atomic int handler_enomem; // HTTP handler steps that returned NNG_ENOMEM
+	int      fired_in_set;     // the failure fired inside an armed option setter (opts-live-*)
+	int      same_obj_retry;   // the refused step was repeated on the same object (not a new one)
 	char     harness_msg[200]; // non-empty: the child could not do its job
 	long     armed_total;
 	int      nsites;
@@ -270,7 +296,7 @@ typedef struct c20_blk {
 	uint64_t        seq;
 } c20_blk; // 48 bytes, keeps 16-byte alignment
 
-enum { M_OFF = 0, M_PROFILE, M_SITE, M_NTH };
+enum { M_OFF = 0, M_PROFILE, M_SITE, M_NTH, M_THR };
 
 static pthread_mutex_t al_mtx = PTHREAD_MUTEX_INITIALIZER;
 static c20_blk         al_head = { 0, 0, &al_head, &al_head, 0, 0, 0 };
@@ -310,7 +336,13 @@ site_intern(uint64_t hash, const uint64_t *fr, int nf)
 	return 0;
 }
 
-static uintptr_t g_ent_lo[2], g_ent_hi[2]; // c20_malloc, c20_calloc
+// set by a program around calls after which it demands more than "pass 2
+// works": only a failure that fired inside such a call, in the thread that
+// made it, is judged that way
+static volatile int g_in_set;
+static pthread_t    g_in_set_thr;
+
+static uintptr_t g_ent_lo[3], g_ent_hi[3]; // c20_malloc, c20_calloc, pthread_create (below)
 
 static void *
 c20_alloc(size_t sz, bool zero, void **bt, int n)
@@ -361,6 +393,8 @@ c20_alloc(size_t sz, bool zero, void **bt, int n)
 			memcpy(sh->fired_fr, fr, sizeof(fr));
 			sh->fired_nf  = nf;
 			sh->fired_seq = al_armed_total;
+			sh->fired_stage = sh->stage;
+			sh->fired_in_set = g_in_set && pthread_equal(pthread_self(), g_in_set_thr);
 			sh->fired     = 1;
 		}
 	}
@@ -464,7 +498,113 @@ disarm(void)
 	pthread_mutex_unlock(&al_mtx);
 }
 
+// ---------------------------------------------------------------- threads
+// Creating a thread is an allocation of the operating system that nng
+// reports as NNG_ENOMEM (nni_plat_thr_init).  This definition takes
+// precedence over the one in libasan / libc for calls made by the
+// executable (libnng.a is linked statically); the k-th creation made while
+// armed fails with EAGAIN in mode M_THR.
+static long al_thr_count;
+
+int
+pthread_create(pthread_t *t, const pthread_attr_t *attr, void *(*fn)(void *), void *arg)
+{
+	static int (*real)(pthread_t *, const pthread_attr_t *, void *(*) (void *), void *);
+	if (real == NULL) {
+		real = (int (*)(pthread_t *, const pthread_attr_t *, void *(*) (void *), void *)) dlsym(
+		    RTLD_NEXT, "pthread_create");
+		if (real == NULL) {
+			abort();
+		}
+	}
+	if (al_armed) {
+		bool  fail = false;
+		void *bt[C20_NF + 3];
+		int   n = al_mode == M_THR ? backtrace(bt, C20_NF + 3) : 0;
+		pthread_mutex_lock(&al_mtx);
+		al_thr_count++;
+		if (al_mode == M_THR && al_thr_count == al_j && !sh->fired) {
+			int first = 0, nf = 0;
+			for (int i = 0; i < n && i < 3; i++) {
+				uintptr_t a = (uintptr_t) bt[i];
+				if (a >= g_ent_lo[2] && a < g_ent_hi[2]) {
+					first = i + 1;
+					break;
+				}
+			}
+			for (int i = first; i < n && nf < C20_NF; i++) {
+				sh->fired_fr[nf++] = (uint64_t) ((uintptr_t) bt[i] - g_bias);
+			}
+			sh->fired_nf    = nf;
+			sh->fired_seq   = al_thr_count;
+			sh->fired_stage = sh->stage;
+			sh->fired_thr   = 1;
+			sh->fired       = 1;
+			fail            = true;
+		}
+		pthread_mutex_unlock(&al_mtx);
+		if (fail) {
+			return EAGAIN;
+		}
+	}
+	return real(t, attr, fn, arg);
+}
+
+// ---------------------------------------------------------------- descriptors
+// "No leak" includes descriptors: the set of open descriptors after nng_fini
+// must be the one from before nng_init (the programs close their own on
+// every path; those of the harness itself are constant).
+#define FD_MAX 1024
+static uint8_t g_fd_before[FD_MAX / 8];
+
+static void
+fd_snapshot(uint8_t *bits)
+{
+	memset(bits, 0, FD_MAX / 8);
+	DIR *d = opendir("/proc/self/fd");
+	if (d == NULL) {
+		return;
+	}
+	int            dfd = dirfd(d);
+	struct dirent *e;
+	while ((e = readdir(d)) != NULL) {
+		if (e->d_name[0] < '0' || e->d_name[0] > '9') {
+			continue;
+		}
+		int fd = atoi(e->d_name);
+		if (fd != dfd && fd < FD_MAX) {
+			bits[fd / 8] |= (uint8_t) (1u << (fd % 8));
+		}
+	}
+	closedir(d);
+}
+
+static void
+fd_balance(void)
+{
+	uint8_t now[FD_MAX / 8];
+	fd_snapshot(now);
+	for (int fd = 0; fd < FD_MAX; fd++) {
+		bool was = (g_fd_before[fd / 8] >> (fd % 8)) & 1, is = (now[fd / 8] >> (fd % 8)) & 1;
+		if (is && !was) {
+			if (sh->fd_leaked++ == 0) {
+				char    path[40];
+				ssize_t n;
+				snprintf(path, sizeof(path), "/proc/self/fd/%d", fd);
+				n = readlink(path, sh->fd_what, sizeof(sh->fd_what) - 1);
+				sh->fd_what[n > 0 ? n : 0] = 0;
+			}
+		} else if (was && !is) {
+			sh->fd_lost++;
+		}
+	}
+	sh->fd_checked = 1;
+}
+
 static int g_task_threads = 2;
+// shape of the other per-thread arrays of nng_init (the init-E-P-R programs
+// drive the unwinding of a partly filled array)
+static int g_expire_threads = 1, g_poller_threads = 1, g_resolver_threads = 1;
 
 static int
 c20_nng_init(void)
@@ -473,11 +613,11 @@ c20_nng_init(void)
 	memset(&p, 0, sizeof(p));
 	p.num_task_threads     = (int16_t) g_task_threads;
 	p.max_task_threads     = (int16_t) g_task_threads;
-	p.num_expire_threads   = 1;
-	p.max_expire_threads   = 1;
-	p.num_poller_threads   = 1;
-	p.max_poller_threads   = 1;
-	p.num_resolver_threads = 1;
+	p.num_expire_threads   = (int16_t) g_expire_threads;
+	p.max_expire_threads   = (int16_t) g_expire_threads;
+	p.num_poller_threads   = (int16_t) g_poller_threads;
+	p.max_poller_threads   = (int16_t) g_poller_threads;
+	p.num_resolver_threads = (int16_t) g_resolver_threads;
 	p.malloc_fn            = c20_malloc;
 	p.calloc_fn            = c20_calloc;
 	p.free_fn              = c20_free;
@@ -612,6 +752,13 @@ ck_(const char *fn, unsigned allow, int rv)
 		// machine is out of ephemeral ports (TIME_WAIT), not nng
 		sh->env_skip = 1;
 		return rv;
+	}
+	if (g_pass == 2 && rv == NNG_ENOMEM) {
+		// nothing is armed any more: there is no source of NNG_ENOMEM
+		// left, this one is a stale error latched in some object
+		if (sh->p2_enomem++ == 0) {
+			snprintf(sh->p2_enomem_call, sizeof(sh->p2_enomem_call), "%s", fn);
+		}
 	}
 	if (g_soft) {
 		snprintf(g_last_fail, sizeof(g_last_fail), "%s=%s", fn, errname(rv));
@@ -775,9 +922,12 @@ set_timeouts(nng_socket s)
 // completely; a path that stays dead is thereby told apart from the loss of
 // one message or one connection.  The bounds are generous and are only
 // reached by a wedged object.
-#define P2_TMO_IO 2000
-#define P2_TMO_CONN 5000
-#define P2_BUDGET_MS 20000
+// (a case that ends "wedged" is run again with these bounds doubled before
+// it is believed: g_p2_scale)
+static int g_p2_scale = 1;
+#define P2_TMO_IO (2000 * g_p2_scale)
+#define P2_TMO_CONN (5000 * g_p2_scale)
+#define P2_BUDGET_MS (20000 * g_p2_scale)
 static uint64_t g_p2_deadline;
 
 static bool
@@ -802,6 +952,7 @@ begin_pass2(void)
 static bool
 p2_more(int attempt)
 {
+	sh->p2_soft_failures++;
 	return attempt < 2 || (attempt < 6 && vf_now_ns() < g_p2_deadline);
 }
 
@@ -1076,6 +1227,7 @@ typedef struct {
 	nng_listener l, l2;
 	nng_dialer   d;
 	bool         listening, dialed, have_l, have_l2;
+	bool         frag; // ws: the dialer sends frames of at most 4096 bytes
 	size_t       len_ab, len_ba;
 } c20_link;
 
@@ -1210,6 +1362,19 @@ link_dial(c20_link *L)
 	}
 	if ((rv = link_durl(L)) != 0) {
 		return rv;
+	}
+	if (L->frag) {
+		// (dialer made in steps, so that the frame size can be set)
+		if ((rv = CK(0, nng_dialer_create, &L->d, L->a, L->durl)) != 0) {
+			return rv;
+		}
+		if ((rv = CK(0, nng_dialer_set_size, L->d, NNG_OPT_WS_SENDMAXFRAME, 4096)) != 0 ||
+		    (rv = CK(A_CONN | A_TMO | A_PEER, nng_dialer_start, L->d, 0)) != 0) {
+			(void) nng_dialer_close(L->d);
+			return rv;
+		}
+		L->dialed = true;
+		return 0;
 	}
 	if ((rv = CK(A_CONN | A_TMO | A_PEER, nng_dial, L->a, L->durl, &L->d, 0)) != 0) {
 		return rv; // a failed synchronous dial leaves no dialer behind
@@ -1478,9 +1643,13 @@ static void
 prog_tran(const parg *pa)
 {
 	c20_link L;
-	link_open(&L, pa->b ? X_REQREP : X_PAIR0, pa->a, false);
+	link_open(&L, pa->b == 1 ? X_REQREP : X_PAIR0, pa->a, false);
 	L.byname = pa->s;
 	L.len_ba = pa->a == VF_T_INPROC ? 300 : 20000;
+	if (pa->b == 2) { // a message of several websocket frames
+		L.frag   = true;
+		L.len_ab = 20000;
+	}
 	arm();
 	if (link_connect(&L) == 0) {
 		(void) link_round(&L);
@@ -1942,13 +2111,16 @@ prog_idmap(const parg *pa)
 	int         vals[200], nset = 0, nalloc = 0;
 	bool        set_ok[80];
 	memset(set_ok, 0, sizeof(set_ok));
+	// (ids are handed out from 1000 up - with NNG_MAP_RANDOM from a random
+	// start -, the keys that are set explicitly stay below: a key set in
+	// the second pass must not replace an id that was handed out before)
 	arm();
-	if (CK(0, nng_id_map_alloc, &map, 1, 100000, pa->a ? NNG_MAP_RANDOM : 0) != 0) {
+	if (CK(0, nng_id_map_alloc, &map, 1000, 100000, pa->a ? NNG_MAP_RANDOM : 0) != 0) {
 		if (!want_pass2()) {
 			return;
 		}
 		begin_pass2();
-		if (CK(0, nng_id_map_alloc, &map, 1, 100000, pa->a ? NNG_MAP_RANDOM : 0) != 0) {
+		if (CK(0, nng_id_map_alloc, &map, 1000, 100000, pa->a ? NNG_MAP_RANDOM : 0) != 0) {
 			return;
 		}
 	}
@@ -2233,12 +2405,15 @@ http_dyn_handler(nng_http *conn, void *arg, nng_aio *aio)
 	size_t len;
 	(void) arg;
 	nng_http_get_body(conn, &body, &len);
-	// (runs in a library thread: results are classified like API calls
-	// of pass 1 or pass 2, whichever the program is in)
+	// (runs in a library thread, possibly for a request the program has
+	// given up already, so "which pass are we in" is not known here: one
+	// failed allocation explains one NNG_ENOMEM of one step, not two)
 	if ((rv = (int) nng_http_copy_body(conn, body, len)) != 0 ||
 	    (rv = (int) nng_http_set_header(conn, "Content-Type", "text/plain")) != 0) {
-		if (rv != NNG_ENOMEM || g_pass == 2) {
+		if (rv != NNG_ENOMEM) {
 			note_violation("bad-rv:http handler step returned %s", errname(rv));
+		} else if (atomic_fetch_add(&sh->handler_enomem, 1) >= 1 || !sh->fired) {
+			note_violation("enomem-again:http handler step");
 		}
 		nng_aio_finish(aio, (nng_err) rv);
 		return;
@@ -2293,13 +2468,24 @@ raw_http_read(int fd, char *buf, size_t cap, int timeout_ms, int *status, bool *
 
 // one request from a raw peer.  pass 1: anything short of the expected
 // answer is a tolerated loss; returns true when it was served as expected.
+typedef struct {
+	const char *path;
+	const char *req;
+	int         expect;
+	bool        added;
+	const char *want; // a 2xx/3xx answer must contain this (body or header)
+} http_route;
+
+// nr requests, one after the other, on ONE connection (keep-alive)
 static bool
-raw_http_request(int port, const char *req, const char *what, int expect)
+raw_http_requests(int port, const http_route *const *rs, int nr, const char *what)
 {
 	char buf[4096];
-	int  status;
+	int  status = 0;
 	bool complete;
 	char why[64];
+	long n  = 0;
+	bool after_5xx = false;
 	int  fd = vf_tcp_connect((uint16_t) port, 1000);
 	if (fd < 0) {
 		if (errno == EADDRNOTAVAIL || errno == EADDRINUSE) {
@@ -2309,16 +2495,62 @@ raw_http_request(int port, const char *req, const char *what, int expect)
 		snprintf(why, sizeof(why), "http:connect-refused");
 		goto lost;
 	}
-	(void) vf_fd_write_all(fd, req, strlen(req), 1000);
-	long n = raw_http_read(fd, buf, sizeof(buf), g_tmo_io, &status, &complete);
+	for (int i = 0; i < nr; i++) {
+		if (i == 1) {
+			sh->stage = 1; // the connection has served a request already
+		}
+		(void) vf_fd_write_all(fd, rs[i]->req, strlen(rs[i]->req), 1000);
+		n = raw_http_read(fd, buf, sizeof(buf), g_tmo_io, &status, &complete);
+		if (n == 0 || status == 0) {
+			break;
+		}
+		if (after_5xx && complete && status != rs[i]->expect) {
+			// The one failure has fired and was answered with a 5xx;
+			// the server chose to keep the connection, so the next
+			// request on it is served (or the connection is dropped).
+			close(fd);
+			note_violation("bad-data:http-kept-connection-after-5xx:status %d", status);
+			return false;
+		}
+		if (complete && status >= 500 && status <= 599 && i < nr - 1 && sh->fired && !after_5xx) {
+			after_5xx = true;
+			continue;
+		}
+		if (status != rs[i]->expect || !complete) {
+			break;
+		}
+		// A well-formed answer must be the answer: the body (or the
+		// Location) of this route, not an empty or an earlier one.  (An
+		// error answer without its page is the documented best effort.)
+		if (status < 400 && rs[i]->want != NULL && strstr(buf, rs[i]->want) == NULL) {
+			close(fd);
+			if (getenv("C20_TRACE") != NULL) {
+				fprintf(stderr, "[http request %d of %d on one connection: answer (%ld bytes) lacks '%s':\n%s]\n", i + 1,
+				    nr, n, rs[i]->want, buf);
+			}
+			if (after_5xx) {
+				note_violation("bad-data:http-kept-connection-after-5xx:wrong-page");
+			} else {
+				note_violation("bad-data:http answer of %s lacks its %s", rs[i]->path + 1,
+				    status >= 300 ? "Location" : "body");
+			}
+			return false;
+		}
+		if (i == nr - 1) {
+			close(fd);
+			if (after_5xx) {
+				snprintf(why, sizeof(why), "http:5xx");
+				goto lost;
+			}
+			return true;
+		}
+	}
 	close(fd);
 	if (n == 0) {
 		snprintf(why, sizeof(why), "http:connection-dropped");
 	} else if (status == 0) {
 		note_violation("bad-data:%s response is not HTTP", what);
 		return false;
-	} else if (status == expect && complete) {
-		return true;
 	} else if (status >= 500 && status <= 599) {
 		snprintf(why, sizeof(why), "http:5xx"); // the server said it could not
 	} else if (!complete) {
@@ -2336,13 +2568,13 @@ lost:
 	return false;
 }
 
-// pass 2: the same request must be served now
+// pass 2: the same request(s) must be served now
 static void
-raw_http_request_p2(int port, const char *req, const char *what, int expect)
+raw_http_requests_p2(int port, const http_route *const *rs, int nr, const char *what)
 {
 	for (int attempt = 0;; attempt++) {
 		g_soft  = true;
-		bool ok = raw_http_request(port, req, what, expect);
+		bool ok = raw_http_requests(port, rs, nr, what);
 		g_soft  = false;
 		if (ok || sh->env_skip || sh->n_note != 0) {
 			return;
@@ -2354,13 +2586,6 @@ raw_http_request_p2(int port, const char *req, const char *what, int expect)
 		vf_msleep(20);
 	}
 }
-
-typedef struct {
-	const char *path;
-	const char *req;
-	int         expect;
-	bool        added;
-} http_route;
 
 static const char http_page[] = "<html>static page</html>";
 static char       http_dir[64], http_f1[96], http_f2[96], http_longloc[300];
@@ -2414,20 +2639,23 @@ prog_http_server(const parg *pa)
 	int              port = 0;
 	bool             started = false, errpage = false;
 	http_route       routes0[] = {
-                { "/static", "GET /static HTTP/1.1\r\nHost: c20\r\n\r\n", 200, false },
-                { "/dyn", "POST /dyn HTTP/1.1\r\nHost: c20\r\nContent-Length: 5\r\n\r\nhello", 200, false },
-                { "/missing", "GET /missing HTTP/1.1\r\nHost: c20\r\n\r\n", 404, false },
-                { NULL, NULL, 0, false },
+                { "/static", "GET /static HTTP/1.1\r\nHost: c20\r\n\r\n", 200, false, http_page },
+                { "/dyn", "POST /dyn HTTP/1.1\r\nHost: c20\r\nContent-Length: 5\r\n\r\nhello", 200, false, "\r\n\r\nhello" },
+                { "/missing", "GET /missing HTTP/1.1\r\nHost: c20\r\n\r\n", 404, false, NULL },
+                { NULL, NULL, 0, false, NULL },
 	};
 	http_route routes1[] = {
-		{ "/file", "GET /file HTTP/1.1\r\nHost: c20\r\n\r\n", 200, false },
-		{ "/dir", "GET /dir/f.txt HTTP/1.1\r\nHost: c20\r\n\r\n", 200, false },
-		{ "/dir-index", "GET /dir/ HTTP/1.1\r\nHost: c20\r\n\r\n", 200, false },
-		{ "/old", "GET /old HTTP/1.1\r\nHost: c20\r\n\r\n", 301, false },
-		{ "/old2", "GET /old2 HTTP/1.1\r\nHost: c20\r\n\r\n", 301, false },
-		{ NULL, NULL, 0, false },
+		{ "/file", "GET /file HTTP/1.1\r\nHost: c20\r\n\r\n", 200, false, "\r\n\r\nfile body\n" },
+		{ "/dir", "GET /dir/f.txt HTTP/1.1\r\nHost: c20\r\n\r\n", 200, false, "\r\n\r\nfile body\n" },
+		{ "/dir-index", "GET /dir/ HTTP/1.1\r\nHost: c20\r\n\r\n", 200, false, "<html>index</html>" },
+		{ "/old", "GET /old HTTP/1.1\r\nHost: c20\r\n\r\n", 301, false, "Location: /file\r\n" },
+		{ "/old2", "GET /old2 HTTP/1.1\r\nHost: c20\r\n\r\n", 301, false, http_longloc },
+		{ NULL, NULL, 0, false, NULL },
 	};
 	http_route *routes = pa->a ? routes1 : routes0;
+	// pa->b: every request is followed by a second one on the same
+	// connection (a server connection that is used again after the failure)
+	bool keepalive = pa->b != 0;
 	if (pa->a) {
 		snprintf(http_dir, sizeof(http_dir), "/tmp/c20h-%d", (int) getpid());
 		snprintf(http_f1, sizeof(http_f1), "%s/f.txt", http_dir);
@@ -2478,10 +2706,23 @@ prog_http_server(const parg *pa)
 			}
 			if (rv == 0 && port != 0) {
 				for (http_route *r = routes; r->path != NULL && !sh->env_skip; r++) {
+					const http_route *seq[3] = { r, &routes[0], r };
+					int               nr     = 1;
+					if (keepalive) {
+						// (not after a redirect or an error answer: whatever
+						// follows one of those on the same connection is
+						// answered with a generated page in place of the
+						// handler's - without any failed allocation, so it
+						// is not for this check to judge)
+						if (r->expect >= 300) {
+							continue;
+						}
+						nr = 3;
+					}
 					if (g_pass == 1) {
-						(void) raw_http_request(port, r->req, r->path + 1, r->expect);
+						(void) raw_http_requests(port, seq, nr, r->path + 1);
 					} else {
-						raw_http_request_p2(port, r->req, r->path + 1, r->expect);
+						raw_http_requests_p2(port, seq, nr, r->path + 1);
 					}
 				}
 			}
@@ -2537,14 +2778,28 @@ http_client_round(nng_http_client *cli, nng_aio *aio, int lfd, int variant)
 		longpath[0] = '/';
 		memset(longval, 'v', sizeof(longval) - 1);
 		path = longpath;
-		if ((rv = CK(0, nng_http_set_header, conn, "X-Long", longval)) != 0) {
-			goto out;
-		}
 	}
-	if ((rv = CK(0, nng_http_set_uri, conn, path, "a=b")) != 0 ||
-	    (rv = CK(0, nng_http_set_header, conn, "X-C20", "yes")) != 0 ||
-	    (rv = CK(0, nng_http_add_header, conn, "X-C20", "again")) != 0 ||
-	    (rv = CK(0, nng_http_copy_body, conn, "ping", 4)) != 0) {
+	for (int again = 0;; again++) {
+		rv = 0;
+		if (variant == 2) {
+			rv = CK(0, nng_http_set_header, conn, "X-Long", longval);
+		}
+		if (rv == 0 &&
+		    ((rv = CK(0, nng_http_set_uri, conn, path, "a=b")) != 0 ||
+		        (rv = CK(0, nng_http_set_header, conn, "X-C20", "yes")) != 0 ||
+		        (rv = CK(0, nng_http_add_header, conn, "X-C20", "again")) != 0 ||
+		        (rv = CK(0, nng_http_copy_body, conn, "ping", 4)) != 0)) {
+		}
+		if (rv == 0 || again > 0 || !want_pass2()) {
+			break;
+		}
+		// A step that prepares the request was refused: the application
+		// repeats the steps on the SAME connection object (nothing armed
+		// any more) and the transaction over it has to work.
+		begin_pass2();
+		sh->same_obj_retry = 1;
+	}
+	if (rv != 0) {
 		goto out;
 	}
 	nng_http_set_method(conn, "POST");
@@ -2672,10 +2927,15 @@ prog_http_client(const parg *pa)
 		if (aio == NULL && CK(0, nng_aio_alloc, &aio, NULL, NULL) != 0) {
 			aio = NULL;
 		}
+		bool done = false;
 		if (cli != NULL && aio != NULL) {
 			if (g_pass == 1) {
+				// (goes over to pass 2 by itself when a step that
+				// prepares the request was refused)
 				(void) http_client_round(cli, aio, lfd, pa->a);
-			} else {
+			}
+			if (g_pass == 2) {
+				done = true;
 				for (int attempt = 0;; attempt++) {
 					g_soft = true;
 					int rv = http_client_round(cli, aio, lfd, pa->a);
@@ -2689,7 +2949,7 @@ prog_http_client(const parg *pa)
 				}
 			}
 		}
-		if (!want_pass2()) {
+		if (done || !want_pass2()) {
 			break;
 		}
 		begin_pass2();
@@ -3342,6 +3602,7 @@ prog_req_resend(const parg *pa)
 	if (recv_tagged(recv_sock, &L.b, 24, tag, NULL) != 0) { // first copy: ignored
 		goto p2;
 	}
+	sh->stage = 1; // what follows is driven by the resend timer
 	if (recv_tagged(recv_sock, &L.b, 24, tag, &r) != 0) { // the resent copy
 		goto p2;
 	}
@@ -3374,6 +3635,7 @@ prog_redial(const parg *pa)
 	for (int i = 0; i < 2000 && (atomic_load(&pc_a) > 0 || atomic_load(&pc_b) > 0); i++) {
 		vf_msleep(1);
 	}
+	sh->stage = 1; // what follows is driven by the dialer's reconnect timer
 	if (link_listen(&L) == 0) {
 		if (!wait_pipes(g_tmo_conn)) {
 			note_loss("no-connection");
@@ -3403,6 +3665,7 @@ prog_two_accept(const parg *pa)
 	if (round_trip(X_REQREP, L.a, L.b, 32, 32) != 0) {
 		child_harness_fail("setup: first client cannot talk");
 	}
+	sh->stage = 1; // the listener is past its first accept
 	arm();
 	for (;;) {
 		for (int attempt = 0;; attempt++) {
@@ -3469,6 +3732,7 @@ prog_survey_expiry(const parg *pa)
 		} else {
 			int rv;
 			(void) recv_tagged(recv_sock, &L.b, 16, tag, NULL); // nobody answers
+			sh->stage = 1; // expiry of the survey and what comes after it
 			note_call("nng_recvmsg");
 			m  = NULL;
 			rv = nng_recvmsg(L.a, &m, 0);
@@ -3491,6 +3755,357 @@ prog_survey_expiry(const parg *pa)
 	link_close(&L);
 }
 
+// ---------------------------------------------------------------- second audit
+// Buffer options of a socket that is connected (pub, bus: two pipes) and
+// whose queues hold messages.  A refused resize must leave the socket usable
+// (no lock kept, the other pipes served) and every queued message in place.
+enum { OL_PUB = 0, OL_BUS, OL_SUB, OL_PUSH, OL_PAIR1, OL_POLY };
+
+static void
+prog_opts_live(const parg *pa)
+{
+	static const int xk[] = { X_PUBSUB, X_BUS, X_PUBSUB, X_PIPELINE, X_PAIR1, X_POLY };
+	c20_link         L;
+	nng_socket       c = NNG_SOCKET_INITIALIZER;
+	int              kind = pa->a, nq = kind == OL_PUSH ? 4 : 3, nrecv = 0, nsets = 0;
+	bool             three = kind == OL_PUB || kind == OL_BUS;
+	uint32_t         tags[4];
+	nng_socket       from, recvs[2];
+	struct {
+		nng_socket  s;
+		const char *opt;
+		int         v1, v2;
+	} sets[3];
+	link_open(&L, xk[kind], VF_T_INPROC, false);
+	L.len_ab = L.len_ba = 40;
+	SETUP(nng_listen, L.b, L.lurl, &L.l, 0);
+	SETUP(nng_dial, L.a, L.lurl, &L.d, 0);
+	snprintf(L.durl, sizeof(L.durl), "%s", L.lurl);
+	L.have_l = L.listening = L.dialed = true;
+	if (!wait_pipes(5000)) {
+		child_harness_fail("setup: no inproc connection");
+	}
+	if (three) { // a second peer of a
+		if (kind == OL_PUB) {
+			SETUP(nng_sub0_open, &c);
+			SETUP(nng_sub0_socket_subscribe, c, "", 0);
+		} else {
+			SETUP(nng_bus0_open, &c);
+		}
+		set_timeouts(c);
+		watch_pipes(c, &pc_c);
+		SETUP(nng_listen, c, "inproc://c20-c", NULL, 0);
+		SETUP(nng_dial, L.a, "inproc://c20-c", NULL, 0);
+		if (!wait_counts(&pc_a, 2, &pc_c, 1, 5000)) {
+			child_harness_fail("setup: no second inproc connection");
+		}
+	}
+	// who sends the messages that will sit in the queues, who holds them,
+	// which options are set while they sit there
+	from = L.a;
+	switch (kind) {
+	case OL_PUB:
+		recvs[nrecv++] = L.b;
+		recvs[nrecv++] = c;
+		SETUP(nng_socket_set_int, L.a, NNG_OPT_SENDBUF, 4);
+		sets[nsets].s = L.a, sets[nsets].opt = NNG_OPT_SENDBUF, sets[nsets].v1 = 8, sets[nsets++].v2 = 32;
+		break;
+	case OL_BUS:
+		from           = L.b;
+		recvs[nrecv++] = L.a;
+		SETUP(nng_socket_set_int, L.b, NNG_OPT_SENDBUF, 8);
+		sets[nsets].s = L.a, sets[nsets].opt = NNG_OPT_RECVBUF, sets[nsets].v1 = 8, sets[nsets++].v2 = 32;
+		sets[nsets].s = L.a, sets[nsets].opt = NNG_OPT_SENDBUF, sets[nsets].v1 = 8, sets[nsets++].v2 = 32;
+		break;
+	case OL_SUB:
+		recvs[nrecv++] = L.b;
+		SETUP(nng_socket_set_int, L.a, NNG_OPT_SENDBUF, 8);
+		sets[nsets].s = L.b, sets[nsets].opt = NNG_OPT_RECVBUF, sets[nsets].v1 = 8, sets[nsets++].v2 = 256;
+		break;
+	case OL_PUSH:
+		recvs[nrecv++] = L.b;
+		SETUP(nng_socket_set_int, L.a, NNG_OPT_SENDBUF, 4);
+		sets[nsets].s = L.a, sets[nsets].opt = NNG_OPT_SENDBUF, sets[nsets].v1 = 8, sets[nsets++].v2 = 32;
+		break;
+	default: // pair1 (own queues), pair1 poly (the socket's message queues)
+		recvs[nrecv++] = L.b;
+		SETUP(nng_socket_set_int, L.a, NNG_OPT_SENDBUF, 2);
+		SETUP(nng_socket_set_int, L.b, NNG_OPT_RECVBUF, 4);
+		sets[nsets].s = L.b, sets[nsets].opt = NNG_OPT_RECVBUF, sets[nsets].v1 = 8, sets[nsets++].v2 = 32;
+		sets[nsets].s = L.a, sets[nsets].opt = NNG_OPT_SENDBUF, sets[nsets].v1 = 8, sets[nsets++].v2 = 32;
+		break;
+	}
+	for (int i = 0; i < nq; i++) {
+		nng_msg *m = NULL;
+		uint8_t  body[16];
+		tags[i] = ++g_tag;
+		vf_fill(body, sizeof(body), tags[i]);
+		memcpy(body, &tags[i], 4);
+		SETUP(nng_msg_alloc, &m, 0);
+		SETUP(nng_msg_append, m, body, sizeof(body));
+		SETUP(nng_sendmsg, from, m, 0);
+		(void) vf_quiesce(1, 300); // as far as it goes before the next one
+	}
+	(void) vf_quiesce(2, 300);
+	g_in_set_thr = pthread_self();
+	arm();
+	for (int i = 0; i < nsets; i++) {
+		g_in_set = 1;
+		(void) CK(0, nng_socket_set_int, sets[i].s, sets[i].opt, sets[i].v1);
+		g_in_set = 0;
+	}
+	for (int i = 0; i < nsets; i++) {
+		g_in_set = 1;
+		(void) CK(0, nng_socket_set_int, sets[i].s, sets[i].opt, sets[i].v2);
+		g_in_set = 0;
+	}
+	// When the failure fired inside a setter, nothing else was refused:
+	// every message that was queued must still come out, in order.  (Not
+	// armed any more: a receive that fails here is not the one loss that a
+	// failed allocation may cost.  A failure that fired elsewhere - a
+	// message still on its way on a busy machine - may have cost one.)
+	bool strict = sh->fired_in_set != 0;
+	if (want_pass2()) {
+		begin_pass2();
+		p2_timeouts(L.a);
+		p2_timeouts(L.b);
+		if (three) {
+			p2_timeouts(c);
+		}
+	} else {
+		disarm();
+	}
+	for (int r = 0; r < nrecv; r++) {
+		for (int i = 0; i < nq; i++) {
+			nng_msg *m = NULL;
+			note_call("nng_recvmsg");
+			int rv = (int) nng_recvmsg(recvs[r], &m, 0);
+			if (rv != 0) {
+				if (g_pass == 2 && strict) {
+					note_wedged("queued-message-gone:%s (message %d of %d)", errname(rv), i + 1, nq);
+				} else {
+					note_loss("queued-message-not-delivered");
+				}
+				break;
+			}
+			int mc = strict ? msg_check(m, 16, tags[i]) : 0;
+			if (mc == 1) {
+				note_violation("bad-data:queue order changed by setting the buffer option");
+			}
+			nng_msg_free(m);
+		}
+	}
+	if (g_pass == 2) {
+		int iv;
+		for (int i = 0; i < nsets; i++) {
+			(void) CK(0, nng_socket_set_int, sets[i].s, sets[i].opt, sets[i].v2);
+			iv = -1;
+			if (CK(0, nng_socket_get_int, sets[i].s, sets[i].opt, &iv) == 0 && iv != sets[i].v2) {
+				note_wedged("%s reads back %d after it was set to %d", sets[i].opt, iv, sets[i].v2);
+			}
+		}
+		link_pass2(&L);
+		if (three && sh->n_wedged == 0) { // the second pipe of a is served too
+			for (int attempt = 0;; attempt++) {
+				g_soft         = true;
+				g_last_fail[0] = 0;
+				int rv = wait_counts(&pc_a, 2, &pc_c, 1, g_tmo_conn) ? xchg(L.a, c, 40) : NNG_ETIMEDOUT;
+				g_soft = false;
+				if (rv <= 0 || !p2_more(attempt)) {
+					if (rv > 0) {
+						note_wedged("second-pipe:%s", g_last_fail[0] ? g_last_fail : "no-connection");
+					}
+					break;
+				}
+			}
+		}
+	}
+	if (three) {
+		close_sock(c);
+	}
+	link_close(&L);
+}
+
+// Several messages back to back: all but the first are sent (and the
+// failure may fire) while earlier ones are still queued or in flight.
+// 0: all n arrived intact and in order.
+static int
+burst_round(nng_socket from, nng_socket to, int n)
+{
+	uint32_t first = g_tag + 1, last = g_tag;
+	int      sent = 0, got = 0, rv = 0, rv2 = 0;
+	for (int i = 0; i < n; i++) {
+		nng_msg *m = NULL;
+		if ((rv = msg_make(&m, 48, ++g_tag)) != 0) {
+			break;
+		}
+		if ((rv = CK(A_TMO | A_CONN, nng_sendmsg, from, m, 0)) != 0) {
+			nng_msg_free(m);
+			break;
+		}
+		sent++;
+		sh->stage = 1;
+	}
+	for (int i = 0; got < sent && i < 200; i++) {
+		nng_msg *m   = NULL;
+		uint32_t tag = 0;
+		if ((rv2 = recv_sock(&to, &m)) != 0) {
+			break;
+		}
+		if (nng_msg_len(m) >= 4) {
+			memcpy(&tag, nng_msg_body(m), 4);
+		}
+		if (tag != 0 && tag < first && tag + 64 > first) {
+			nng_msg_free(m); // of an earlier, given-up round
+			continue;
+		}
+		if (tag < first || tag > g_tag) {
+			note_violation("bad-data:burst message with a tag that was never sent");
+		} else if (tag <= last) {
+			note_violation("bad-data:burst message duplicated or out of order");
+		} else {
+			(void) msg_check(m, 48, tag);
+			last = tag;
+		}
+		nng_msg_free(m);
+		got++;
+	}
+	if (rv == 0 && rv2 == 0 && sent == n && got == n && last == g_tag) {
+		return 0;
+	}
+	if (rv == 0 && rv2 == 0) {
+		if (g_soft) {
+			snprintf(g_last_fail, sizeof(g_last_fail), "burst:%d-of-%d-arrived", got, n);
+		} else {
+			note_loss("burst:not-all-arrived");
+		}
+	}
+	return rv ? rv : rv2 ? rv2 : NNG_ETIMEDOUT;
+}
+
+static void
+prog_burst(const parg *pa)
+{
+	c20_link L;
+	link_open_connected(&L, pa->a, VF_T_INPROC);
+	(void) nng_socket_set_int(L.a, NNG_OPT_SENDBUF, 4);
+	(void) nng_socket_set_int(L.b, NNG_OPT_RECVBUF, 4);
+	arm();
+	(void) burst_round(L.a, L.b, 3);
+	if (want_pass2()) {
+		begin_pass2();
+		p2_timeouts(L.a);
+		p2_timeouts(L.b);
+		for (int attempt = 0;; attempt++) {
+			g_soft         = true;
+			g_last_fail[0] = 0;
+			drain(L.b);
+			int rv = wait_pipes(g_tmo_conn) ? burst_round(L.a, L.b, 3) : NNG_ETIMEDOUT;
+			g_soft = false;
+			if (rv <= 0 || !p2_more(attempt)) {
+				if (rv > 0) {
+					note_wedged("%s", g_last_fail[0] ? g_last_fail : "no-connection");
+				}
+				break;
+			}
+		}
+	}
+	link_close(&L);
+}
+
+// two REQ contexts with a request outstanding each, one REP socket
+static int
+req2_round(c20_link *L, nng_ctx c1, nng_ctx c2)
+{
+	nng_msg *m = NULL;
+	uint32_t t1 = ++g_tag, t2 = ++g_tag;
+	int      rv, r1, r2;
+	if ((rv = msg_make(&m, 24, t1)) != 0) {
+		return rv;
+	}
+	if ((rv = CK(A_TMO | A_CONN, nng_ctx_sendmsg, c1, m, 0)) != 0) {
+		nng_msg_free(m);
+		return rv;
+	}
+	sh->stage = 1; // from here on a request is outstanding on another context
+	if ((rv = msg_make(&m, 24, t2)) != 0) {
+		return rv;
+	}
+	if ((rv = CK(A_TMO | A_CONN, nng_ctx_sendmsg, c2, m, 0)) != 0) {
+		nng_msg_free(m);
+		return rv;
+	}
+	for (int k = 0, i = 0; k < 2 && i < 64; i++) {
+		uint32_t tag = 0;
+		m            = NULL;
+		if ((rv = recv_sock(&L->b, &m)) != 0) {
+			return rv;
+		}
+		if (nng_msg_len(m) >= 4) {
+			memcpy(&tag, nng_msg_body(m), 4);
+		}
+		if (tag != t1 && tag != t2) {
+			if (!(tag != 0 && tag < t1 && tag + 64 > t1)) {
+				note_violation("bad-data:request with a tag that was never sent");
+			}
+			nng_msg_free(m); // (of an earlier, given-up round: not answered)
+			continue;
+		}
+		(void) msg_check(m, 24, tag);
+		if ((rv = CK(A_TMO | A_CONN, nng_sendmsg, L->b, m, 0)) != 0) {
+			nng_msg_free(m);
+			return rv;
+		}
+		k++;
+	}
+	// each context gets the reply to ITS request
+	r1 = recv_tagged(recv_ctx, &c1, 24, t1, NULL);
+	r2 = recv_tagged(recv_ctx, &c2, 24, t2, NULL);
+	return r1 ? r1 : r2;
+}
+
+static void
+prog_req2(const parg *pa)
+{
+	c20_link L;
+	nng_ctx  c1, c2;
+	(void) pa;
+	link_open_connected(&L, X_REQREP, VF_T_INPROC);
+	SETUP(nng_ctx_open, &c1, L.a);
+	SETUP(nng_ctx_open, &c2, L.a);
+	SETUP(nng_ctx_set_ms, c1, NNG_OPT_RECVTIMEO, g_tmo_io);
+	SETUP(nng_ctx_set_ms, c2, NNG_OPT_RECVTIMEO, g_tmo_io);
+	SETUP(nng_ctx_set_ms, c1, NNG_OPT_SENDTIMEO, g_tmo_io);
+	SETUP(nng_ctx_set_ms, c2, NNG_OPT_SENDTIMEO, g_tmo_io);
+	arm();
+	(void) req2_round(&L, c1, c2);
+	if (want_pass2()) {
+		begin_pass2();
+		p2_timeouts(L.a);
+		p2_timeouts(L.b);
+		(void) nng_ctx_set_ms(c1, NNG_OPT_RECVTIMEO, g_tmo_io);
+		(void) nng_ctx_set_ms(c2, NNG_OPT_RECVTIMEO, g_tmo_io);
+		(void) nng_ctx_set_ms(c1, NNG_OPT_SENDTIMEO, g_tmo_io);
+		(void) nng_ctx_set_ms(c2, NNG_OPT_SENDTIMEO, g_tmo_io);
+		for (int attempt = 0;; attempt++) {
+			g_soft         = true;
+			g_last_fail[0] = 0;
+			drain(L.b);
+			int rv = wait_pipes(g_tmo_conn) ? req2_round(&L, c1, c2) : NNG_ETIMEDOUT;
+			g_soft = false;
+			if (rv <= 0 || !p2_more(attempt)) {
+				if (rv > 0) {
+					note_wedged("%s", g_last_fail[0] ? g_last_fail : "no-connection");
+				}
+				break;
+			}
+		}
+	}
+	(void) CK(0, nng_ctx_close, c1);
+	(void) CK(0, nng_ctx_close, c2);
+	link_close(&L);
+}
+
 // ======================================================================
 // program table
 // ======================================================================
@@ -3498,6 +4113,7 @@ prog_survey_expiry(const parg *pa)
 #define PF_NTH 2u      // single-threaded: also plain k-th enumeration
 #define PF_QUICK 4u    // (unused) historical
 #define PF_THOROUGH 8u // only in the thorough tier (outside the required corpus)
+#define PF_THR 16u     // creates threads while armed: also fail the k-th thread creation
 typedef struct {
 	char     name[40];
 	void (*fn)(const parg *);
@@ -3505,7 +4121,7 @@ typedef struct {
 	unsigned flags;
 } c20_prog;
 
-#define MAX_PROGS 128
+#define MAX_PROGS 192
 static c20_prog progs[MAX_PROGS];
 static int      n_progs;
 
@@ -3531,7 +4147,7 @@ add_prog(unsigned flags, void (*fn)(const parg *), int a, int b, const char *s, 
 static void
 build_progs(void)
 {
-	add_prog(PF_ARM_INIT | PF_NTH | PF_QUICK, prog_init, 0, 0, NULL, "init");
+	add_prog(PF_ARM_INIT | PF_NTH | PF_QUICK | PF_THR, prog_init, 0, 0, NULL, "init");
 	for (int i = 0; i < vf_nprotos; i++) {
 		add_prog(PF_QUICK, prog_open, i, 0, NULL, "open-%s", vf_protos[i].name);
 	}
@@ -3570,7 +4186,7 @@ build_progs(void)
 	add_prog(PF_NTH | PF_QUICK, prog_msg, 0, 0, NULL, "msg");
 	add_prog(PF_NTH | PF_QUICK, prog_idmap, 0, 0, NULL, "idmap");
 	add_prog(PF_NTH, prog_idmap, 1, 0, NULL, "idmap-random");
-	add_prog(PF_QUICK, prog_aio, 0, 0, NULL, "aio-sync-thread");
+	add_prog(PF_QUICK | PF_THR, prog_aio, 0, 0, NULL, "aio-sync-thread");
 	add_prog(PF_QUICK, prog_ep, 0, 0, NULL, "endpoints");
 	add_prog(PF_QUICK, prog_sendrecv, 0, 0, NULL, "send-recv-buf");
 	add_prog(PF_QUICK, prog_stats, 0, 0, NULL, "stats");
@@ -3609,6 +4225,25 @@ build_progs(void)
 	add_prog(0, prog_two_accept, VF_T_INPROC, 0, NULL, "second-accept-inproc");
 	add_prog(0, prog_two_accept, VF_T_TCP, 0, NULL, "second-accept-tcp");
 	add_prog(0, prog_survey_expiry, 0, 0, NULL, "survey-expiry");
+	// second audit: nng_init with several threads per array (partial unwind)
+	add_prog(PF_ARM_INIT | PF_NTH | PF_THR, prog_init, 322, 4, NULL, "init-3-2-2");
+	// ... options of connected sockets with loaded queues
+	add_prog(0, prog_opts_live, OL_PUB, 0, NULL, "opts-live-pub");
+	add_prog(0, prog_opts_live, OL_BUS, 0, NULL, "opts-live-bus");
+	add_prog(0, prog_opts_live, OL_SUB, 0, NULL, "opts-live-sub");
+	add_prog(0, prog_opts_live, OL_PUSH, 0, NULL, "opts-live-push");
+	add_prog(0, prog_opts_live, OL_PAIR1, 0, NULL, "opts-live-pair1");
+	add_prog(0, prog_opts_live, OL_POLY, 0, NULL, "opts-live-pair1poly");
+	// ... a failure that does not hit the first message of a fresh connection
+	add_prog(0, prog_burst, X_PAIR0, 0, NULL, "burst-pair0");
+	add_prog(0, prog_burst, X_PAIR1, 0, NULL, "burst-pair1");
+	add_prog(0, prog_burst, X_PIPELINE, 0, NULL, "burst-pipeline");
+	add_prog(0, prog_burst, X_PUBSUB, 0, NULL, "burst-pubsub");
+	add_prog(0, prog_burst, X_BUS, 0, NULL, "burst-bus");
+	add_prog(0, prog_req2, 0, 0, NULL, "burst-req-two-ctx");
+	add_prog(0, prog_tran, VF_T_WS, 2, NULL, "tran-ws-frames");
+	add_prog(0, prog_http_server, 0, 1, NULL, "http-server-keepalive");
+	add_prog(0, prog_http_server, 1, 1, NULL, "http-server-files-keepalive");
 }
 
 // ======================================================================
@@ -3699,6 +4334,15 @@ child_main(const c20_case *c)
 	al_mode           = c->kind;
 	al_target         = c->hash;
 	al_j              = c->j;
+	if (p->fn == prog_init && p->arg.a != 0) {
+		// init-E-P-R: arrays of several expire / poller / resolver threads
+		// (the follow-up initialises the library in the same shape)
+		g_expire_threads   = p->arg.a / 100;
+		g_poller_threads   = p->arg.a / 10 % 10;
+		g_resolver_threads = p->arg.a % 10;
+		g_task_threads     = p->arg.b;
+	}
+	fd_snapshot(g_fd_before);
 	if (p->flags & PF_ARM_INIT) {
 		arm();
 	}
@@ -3720,8 +4364,10 @@ child_main(const c20_case *c)
 	disarm();
 	sh->phase = PH_LEAK;
 	leak_check();
+	fd_balance();
 	pthread_mutex_lock(&al_mtx);
 	sh->armed_total = al_armed_total;
+	sh->thr_total   = al_thr_count;
 	if (c->kind == M_PROFILE) {
 		sh->nsites = 0;
 		for (int i = 0; i < al_nsites; i++) {
@@ -4144,7 +4790,7 @@ typedef struct {
 	c20_case c;
 	int      timeout_s;
 	int      want_stacks;
-	int      tmo_io, tmo_conn, task_threads;
+	int      tmo_io, tmo_conn, task_threads, p2_scale;
 } zy_req;
 typedef struct {
 	int res;
@@ -4165,6 +4811,7 @@ zygote_run(const zy_req *rq, zy_rep *rp)
 	g_tmo_io          = rq->tmo_io;
 	g_tmo_conn        = rq->tmo_conn;
 	g_task_threads    = rq->task_threads;
+	g_p2_scale        = rq->p2_scale > 0 ? rq->p2_scale : 1;
 	if (ftruncate(g_errfd, 0) != 0 || lseek(g_errfd, 0, SEEK_SET) != 0) {
 		_exit(9);
 	}
@@ -4297,6 +4944,7 @@ run_child(const c20_case *c, int timeout_s, bool want_stacks)
 	rq.tmo_io       = g_tmo_io;
 	rq.tmo_conn     = g_tmo_conn;
 	rq.task_threads = g_task_threads;
+	rq.p2_scale     = g_p2_scale;
 	g_err[0]        = 0;
 	if (write(g_zy_fd, &rq, sizeof(rq)) != (ssize_t) sizeof(rq)) {
 		vf_harness_fail("zygote: write failed: %s", strerror(errno));
@@ -4327,6 +4975,7 @@ typedef struct {
 static psite p_sites[C20_MAXSITES];
 static int   p_n;
 static long  p_total; // smallest number of armed allocations of a profile run
+static long  p_thr;   // smallest number of thread creations while armed
 
 static int g_case_timeout = 30;
 
@@ -4368,7 +5017,14 @@ seen_has(uint64_t off)
 // allocation entry point or a generic allocating constructor, and whether
 // the corpus ever allocated through it.
 static const char *const census_callees[] = { "nni_alloc", "nni_zalloc", "nni_strdup", "nni_asprintf",
-	"nni_msg_alloc", "nni_msg_dup", "nni_aio_alloc", "nni_id_set", "nni_id_alloc", "nni_id_alloc32", NULL };
+	"nni_msg_alloc", "nni_msg_dup", "nni_aio_alloc", "nni_id_set", "nni_id_alloc", "nni_id_alloc32",
+	// (second audit) callers of the other allocating helpers are call sites too
+	"nni_lmq_resize", "nni_msgq_init", "nni_msgq_resize", "nni_chunk_grow", "nni_chunk_dup",
+	"nni_chunk_append", "nni_chunk_insert", "nni_msg_append", "nni_msg_insert", "nni_msg_realloc",
+	"nni_msg_reserve", "nni_url_parse", "nni_url_parse_inline",
+	"nni_url_clone", "nni_url_clone_inline", NULL };
+// (not nni_lmq_init: it allocates only for capacities above 2, most callers ask
+// for less; not nni_msg_header_append/insert: the header is a fixed buffer)
 
 static void
 census(void)
@@ -4472,11 +5128,19 @@ profile_prog(int pi, int runs)
 {
 	p_n     = 0;
 	p_total = -1;
-	int env_retries = 0;
+	p_thr   = -1;
+	int env_retries = 0, loss_retries = 0;
 	for (int r = 0; r < runs; r++) {
 		c20_case c = { M_PROFILE, pi, 0, 0 };
 		vf_watchdog(180);
-		int res = run_child(&c, 30, true);
+		// nothing is armed: a bounded wait only runs out when the machine
+		// is busy, so the bounds of the second pass are used
+		int tio = g_tmo_io, tconn = g_tmo_conn;
+		g_tmo_io   = 2000;
+		g_tmo_conn = 5000;
+		int res    = run_child(&c, 60, true);
+		g_tmo_io   = tio;
+		g_tmo_conn = tconn;
 		if (res == R_DONE && sh->env_skip) {
 			if (++env_retries > 20) {
 				vf_harness_fail("profile run of %s: the machine has no free ephemeral ports (gave up after %d tries)",
@@ -4492,14 +5156,31 @@ profile_prog(int pi, int runs)
 			vf_harness_fail("profile run of %s did not finish (res %d status 0x%x phase %d call %s msg %s): %.600s || %.3000s",
 			    progs[pi].name, res, g_status, sh->phase, sh->cur_call, sh->harness_msg, g_err, g_stacks);
 		}
-		if (sh->n_bad || sh->n_note || sh->leak_blocks || sh->n_aerr || sh->n_enomem) {
+		if (sh->n_bad || sh->n_note || sh->leak_blocks || sh->n_aerr || sh->n_enomem || sh->fd_leaked ||
+		    sh->fd_lost || !sh->fd_checked) {
 			char d[900];
 			describe_anomaly(d, sizeof(d));
-			vf_harness_fail("profile run of %s (no failure injected) is not clean:%s",
-			    progs[pi].name, d);
+			vf_harness_fail("profile run of %s (no failure injected) is not clean:%s fd +%d(%s) -%d",
+			    progs[pi].name, d, sh->fd_leaked, sh->fd_what, sh->fd_lost);
+		}
+		if (sh->n_loss != 0) {
+			// nothing was armed, yet a bounded wait of the first pass ran
+			// out (busy machine): the sites behind it were not seen.
+			// Such a profile is not used.
+			if (++loss_retries > 3) {
+				vf_harness_fail("profile run of %s (no failure injected) lost a message or connection %d times "
+				                "(last: %s): the machine is too busy to profile this program",
+				    progs[pi].name, loss_retries, sh->loss[0]);
+			}
+			vf_stat("profile_runs_repeated", 1);
+			r--;
+			continue;
 		}
 		if (p_total < 0 || sh->armed_total < p_total) {
 			p_total = sh->armed_total;
+		}
+		if (p_thr < 0 || sh->thr_total < p_thr) {
+			p_thr = sh->thr_total;
 		}
 		for (int i = 0; i < sh->nsites; i++) {
 			c20_site *s = &sh->sites[i];
@@ -4563,6 +5244,28 @@ judge(const c20_case *c, const char *casedesc)
 			vf_stat("timeouts_not_repeated", 1);
 		}
 	}
+	if (res == R_DONE && sh->fired && !sh->env_skip && sh->n_wedged > 0) {
+		// policy: "the second pass did not succeed" is a bounded-progress
+		// verdict; like a hang it is re-run (bounds doubled) before it is
+		// believed.  A re-run in which the failure does not fire (a site
+		// that depends on the schedule) says nothing: try again.
+		char first[96];
+		snprintf(first, sizeof(first), "%s", sh->wedged[0]);
+		vf_stat("wedged_rerun", 1);
+		for (int i = 0; i < 3; i++) {
+			g_p2_scale = 2;
+			vf_watchdog(400);
+			res        = run_child(c, 120, true);
+			g_p2_scale = 1;
+			if (res != R_DONE || sh->fired) {
+				break;
+			}
+		}
+		if (res == R_DONE && (!sh->fired || sh->n_wedged == 0)) {
+			vf_stat("wedged_not_repeated", 1);
+			vf_class("%s|wedged once, not when re-run with doubled bounds|%s", progs[c->prog].name, first);
+		}
+	}
 	if (res == R_HARNESS) {
 		if (sh->fired) {
 			// a helper of the harness gave up after the failure fired
@@ -4584,6 +5287,9 @@ judge(const c20_case *c, const char *casedesc)
 		return 0;
 	}
 	vf_stat("cases", 1);
+	if (sh->fired_thr) {
+		vf_stat("thread_creation_cases", 1);
+	}
 	site_fn(sh->fired_fr, sh->fired_nf, sfn, sizeof(sfn));
 	site_desc(sh->fired_fr, sh->fired_nf, sdesc, sizeof(sdesc));
 	const char *pname = progs[c->prog].name;
@@ -4678,8 +5384,51 @@ judge(const c20_case *c, const char *casedesc)
 		viol(sfn, sh->aerr[i].what, lfn, casedesc, detail);
 		bad++;
 	}
+	if (sh->fd_checked) {
+		vf_stat("fd_balance_cases", 1);
+	}
+	if (sh->fd_leaked > 0) {
+		char what[64];
+		snprintf(what, sizeof(what), "%s", sh->fd_what);
+		slug(what, 40);
+		snprintf(detail, sizeof(detail),
+		    "%d descriptor(s) that did not exist before nng_init are still open after everything was closed and "
+		    "nng_fini returned; the first is %s; failed site %s",
+		    sh->fd_leaked, sh->fd_what, sdesc);
+		viol(sfn, "fd-leak", what, casedesc, detail);
+		bad++;
+	}
+	if (sh->fd_lost > 0) {
+		snprintf(detail, sizeof(detail),
+		    "%d descriptor(s) that were open before nng_init (they belong to the application) were closed; failed site %s",
+		    sh->fd_lost, sdesc);
+		viol(sfn, "fd-closed-foreign", NULL, casedesc, detail);
+		bad++;
+	}
+	if (sh->p2_enomem > 0) {
+		snprintf(kind, sizeof(kind), "enomem-again:pass2:%s", sh->p2_enomem_call);
+		snprintf(detail, sizeof(detail),
+		    "%d API call(s) of the second pass returned NNG_ENOMEM although nothing was armed any more "
+		    "(first: %s; first pass: ENOMEM from '%s'); site %s",
+		    sh->p2_enomem, sh->p2_enomem_call, sh->enomem_call, sdesc);
+		viol(sfn, kind, NULL, casedesc, detail);
+		bad++;
+	}
 	if (sh->pass2) {
 		vf_stat("pass2_runs", 1);
+		vf_stat("pass2_repeated_attempts", sh->p2_soft_failures);
+	}
+	if (sh->fired_stage > 0) {
+		// the failure hit the program past its first round (timer /
+		// background path, second message, second request ...)
+		vf_stat("fired_after_first_round", 1);
+		vf_class("late|%s", pname);
+	}
+	if (sh->same_obj_retry) {
+		vf_stat("same_object_retries", 1);
+	}
+	if (sh->fired_in_set) {
+		vf_stat("fired_in_live_setter", 1);
 	}
 	for (int i = 0; i < sh->n_wedged && i < 4; i++) {
 		char k2[128];
@@ -4745,6 +5494,7 @@ judge(const c20_case *c, const char *casedesc)
 // the low 52 bits).  A case is regenerated from (seed, index) after the
 // program has been profiled again.
 #define K_NTH 7
+#define K_THR 6 // k-th thread creation (k in the j field); repetitions use 0..5
 static long
 case_index(int pi, int kind, uint64_t hash, long j)
 {
@@ -4764,13 +5514,16 @@ main(int argc, char **argv)
 		(void) backtrace(bt, 4);
 	}
 	for (int i = 0; i < g_nsyms; i++) {
-		int w = !strcmp(g_syms[i].name, "c20_malloc") ? 0 : !strcmp(g_syms[i].name, "c20_calloc") ? 1 : -1;
+		int w = !strcmp(g_syms[i].name, "c20_malloc") ? 0
+		    : !strcmp(g_syms[i].name, "c20_calloc")   ? 1
+		    : !strcmp(g_syms[i].name, "pthread_create") ? 2
+		                                                : -1;
 		if (w >= 0) {
 			g_ent_lo[w] = g_bias + g_syms[i].addr;
 			g_ent_hi[w] = g_ent_lo[w] + g_syms[i].size;
 		}
 	}
-	if (g_ent_lo[0] == 0 || g_ent_lo[1] == 0) {
+	if (g_ent_lo[0] == 0 || g_ent_lo[1] == 0 || g_ent_lo[2] == 0) {
 		vf_harness_fail("allocator entry points not found in .symtab");
 	}
 	zygote_start();
@@ -4782,8 +5535,8 @@ main(int argc, char **argv)
 	long all_j_max = thorough ? 64 : 0; // thorough: every j up to this
 	long nth_cap   = thorough ? 4000 : 400;
 	static const int rep_threads[7] = { 2, 4, 8, 2, 3, 6, 2 };
-	if (reps > 7) {
-		reps = 7;
+	if (reps > K_THR) {
+		reps = K_THR;
 	}
 	if (thorough) {
 		g_tmo_io   = 800;
@@ -4917,6 +5670,24 @@ main(int argc, char **argv)
 				vf_stat("cases_run", 1);
 				vf_stat("cases_nth", 1);
 				c20_case c = { M_NTH, pi, 0, k };
+				(void) judge(&c, desc);
+			}
+		}
+		if ((p->flags & PF_THR) && only_site == NULL) {
+			for (long k = 1; k <= p_thr && k <= 64; k++) {
+				long idx = case_index(pi, K_THR, 0, k);
+				if (vf_only < 0 && (int) (k % vf_nshards) != vf_shard) {
+					continue;
+				}
+				if (!vf_want_case(idx)) {
+					continue;
+				}
+				char desc[200];
+				snprintf(desc, sizeof(desc), "prog=%s thread-creation=%ld of %ld", p->name, k, p_thr);
+				vf_case_begin(idx, "%s", desc);
+				vf_watchdog(180);
+				vf_stat("cases_run", 1);
+				c20_case c = { M_THR, pi, 0, k };
 				(void) judge(&c, desc);
 			}
 		}
